@@ -452,13 +452,53 @@ pub fn run(ctx: &mut Ctx) {
             }
             let cli_ok = r.exit == Some(0);
             let consistent = verdicts.contains(&cli_ok) && !r.crashed();
-            (*i, if consistent { None } else { Some(format!("binary {} but in-process 'reported OK' over all file orders is {:?}", r.summary(), verdicts)) })
+            if !consistent {
+                return (*i, Some(format!("binary {} but in-process 'reported OK' over all file orders is {:?}", r.summary(), verdicts)));
+            }
+            // the same set presented as a directory, and as one listed file plus a directory holding the others
+            // (listed file first and last; the first and the last file of the set as the listed one)
+            let names = file_names(0, files.len());
+            let mut presentations: Vec<(String, Vec<String>)> = vec![];
+            let all = dir.join("all");
+            std::fs::create_dir_all(&all).unwrap();
+            for (t, nm) in files.iter().zip(names.iter()) {
+                std::fs::write(all.join(nm.trim_start_matches("/w/")), t).unwrap();
+            }
+            presentations.push(("directory".into(), vec![all.to_string_lossy().to_string()]));
+            if files.len() >= 2 {
+                for (which, k) in [("first", 0usize), ("last", files.len() - 1)] {
+                    let d = dir.join(format!("split-{}", which));
+                    let rest = d.join("rest");
+                    std::fs::create_dir_all(&rest).unwrap();
+                    let listed = d.join(names[k].trim_start_matches("/w/"));
+                    for (j, (t, nm)) in files.iter().zip(names.iter()).enumerate() {
+                        if j == k {
+                            std::fs::write(&listed, t).unwrap();
+                        } else {
+                            std::fs::write(rest.join(nm.trim_start_matches("/w/")), t).unwrap();
+                        }
+                    }
+                    let (l, r) = (listed.to_string_lossy().to_string(), rest.to_string_lossy().to_string());
+                    presentations.push((format!("{}-file-listed-then-directory", which), vec![l.clone(), r.clone()]));
+                    presentations.push((format!("directory-then-{}-file-listed", which), vec![r, l]));
+                }
+            }
+            for (pname, pargs) in presentations {
+                let mut a: Vec<&str> = vec!["check"];
+                a.extend(pargs.iter().map(|x| x.as_str()));
+                let r = cli::run(&a, &tmp, Duration::from_secs(30));
+                if !(verdicts.contains(&(r.exit == Some(0))) && !r.crashed()) {
+                    return (*i, Some(format!("presented as {}: binary {} but in-process 'reported OK' over all file orders is {:?}", pname, r.summary(), verdicts)));
+                }
+            }
+            (*i, None)
         })
         .collect();
     for (i, r) in cli_res {
         ctx.traces += 1;
         if let Some(m) = r {
-            ctx.fail(&format!("{}#binary-differs-from-in-process", fs[specs[i].fault].kind), &m, json!({"fault": fs[specs[i].fault].kind, "files": texts_of(&fs[specs[i].fault], &pool, &specs[i])}));
+            let pres = if m.starts_with("presented as ") { m["presented as ".len()..].split(':').next().unwrap_or("").to_string() } else { String::new() };
+            ctx.fail(&format!("{}#binary-differs-from-in-process{}", fs[specs[i].fault].kind, if pres.is_empty() { String::new() } else { format!("/{}", pres) }), &m, json!({"fault": fs[specs[i].fault].kind, "files": texts_of(&fs[specs[i].fault], &pool, &specs[i])}));
         }
     }
     ctx.extra.insert("cli_runs".into(), json!(ctx.traces));
